@@ -2,11 +2,11 @@
      bytes --push_bytes (UTF-8 carry-over, session.rs)--> text segments
            --SseDecoder::push/finish (rip-provider-openresponses/src/lib.rs)--> parsed events
            --EventFrameMapper::map + seq_offset (lib.rs / session.rs push_sse_str)--> frames.
-   Strings are lists of code points.  JSON parsing / schema validation of a payload is the section
-   variable `classify` (the frames depend on the payload only through it).  No proofs here. *)
-From RipV Require Import Base.Prelude Base.Utf8.
-
-Definition str := list N.
+   Strings are lists of code points (`str` of Base/Json.v).  In this file the classification of one
+   payload (JSON parsing, schema validation, delta extraction) is the section variable `classify` (the
+   frames depend on the payload only through it); Model/SseJson.v instantiates it with an executable
+   model over Base/Json.v + Base/JsonParse.v.  No proofs here. *)
+From RipV Require Import Base.Prelude Base.Utf8 Base.Json.
 
 (* char::is_whitespace (Unicode White_Space) — what str::trim / trim_start use *)
 Definition is_ws (c : N) : bool :=
@@ -47,15 +47,17 @@ Fixpoint split_lines (cur : str) (l : str) : list str * str :=
 
 (* ---------- parsed events ---------- *)
 Inductive cls :=
-| CInvalid (err : N)                                  (* serde_json::from_str failed; err = digest of the message *)
-| CEvent (data err rerr : N) (delta : option str).    (* parsed; digests of data / errors / response_errors; text delta *)
+| CInvalid (errs : list str)                          (* kept as text: ParsedEvent::invalid_json(raw, err, event) *)
+| CEvent (data : json) (errs rerrs : list str) (delta : option str).
+                                                      (* ParsedEvent::event: data, errors, response_errors; the text
+                                                         delta EventFrameMapper derives from data *)
 
 Record pev := { pe_kind : N;                          (* 0 Done, 1 InvalidJson, 2 Event *)
                 pe_event : option str; pe_raw : str;
-                pe_data : N; pe_err : N; pe_rerr : N; pe_delta : option str }.
+                pe_data : option json; pe_err : list str; pe_rerr : list str; pe_delta : option str }.
 
 Inductive frame :=
-| FProv (seq status : N) (ev : option str) (raw : option str) (data : option N) (err rerr : N)
+| FProv (seq status : N) (ev : option str) (raw : option str) (data : option json) (err rerr : list str)
 | FDelta (seq : N) (delta : str).
 
 Definition fseq (f : frame) : N := match f with FProv s _ _ _ _ _ _ => s | FDelta s _ => s end.
@@ -77,10 +79,10 @@ Variable off : N.            (* seq_offset = *seq when the pipe is created *)
 (* SseDecoder::parse_event *)
 Definition parse_event (ev : option str) (raw : str) : pev :=
   if lN_eqb raw S_DONE
-  then {| pe_kind := 0; pe_event := None; pe_raw := raw; pe_data := 0; pe_err := 0; pe_rerr := 0; pe_delta := None |}
+  then {| pe_kind := 0; pe_event := None; pe_raw := raw; pe_data := None; pe_err := []; pe_rerr := []; pe_delta := None |}
   else match classify ev raw with
-       | CInvalid e => {| pe_kind := 1; pe_event := ev; pe_raw := raw; pe_data := 0; pe_err := e; pe_rerr := 0; pe_delta := None |}
-       | CEvent d e r dl => {| pe_kind := 2; pe_event := ev; pe_raw := raw; pe_data := d; pe_err := e; pe_rerr := r; pe_delta := dl |}
+       | CInvalid e => {| pe_kind := 1; pe_event := ev; pe_raw := raw; pe_data := None; pe_err := e; pe_rerr := []; pe_delta := None |}
+       | CEvent d e r dl => {| pe_kind := 2; pe_event := ev; pe_raw := raw; pe_data := Some d; pe_err := e; pe_rerr := r; pe_delta := dl |}
        end.
 
 (* one complete line (lib.rs:338-363); state = (current_event, current_data) *)
@@ -125,7 +127,7 @@ Definition dec_finish (d : dstate) : dstate * list pev :=
 
 (* EventFrameMapper::map, with `frame.seq += seq_offset` applied *)
 Definition prov_frame (s : N) (e : pev) : frame :=
-  if pe_kind e =? 2 then FProv s 2 (pe_event e) None (Some (pe_data e)) (pe_err e) (pe_rerr e)
+  if pe_kind e =? 2 then FProv s 2 (pe_event e) None (pe_data e) (pe_err e) (pe_rerr e)
   else FProv s (pe_kind e) (pe_event e) (Some (pe_raw e)) None (pe_err e) (pe_rerr e).
 Definition ev_frames (s : N) (e : pev) : list frame :=
   match pe_delta e with
@@ -200,8 +202,8 @@ Fixpoint run_chunks (buf : list N) (p : pipe) (cs : list (list N)) : list N * pi
 
 (* after the chunks: `[DONE]` seen => nothing more; a transport error (digest terr) => the error frame
    at seq = *self.seq = off + mapper.seq; else pipe.finish() *)
-Definition transport_error_frame (p : pipe) (h : N) : frame := FProv (off + p_mseq p) 2 None None None h 0.
-Definition run_pipe (cs : list (list N)) (terr : option N) : list frame * N :=
+Definition transport_error_frame (p : pipe) (h : str) : frame := FProv (off + p_mseq p) 2 None None None [h] [].
+Definition run_pipe (cs : list (list N)) (terr : option str) : list frame * N :=
   let '(_, p, d) := run_chunks [] pipe_new cs in
   if d then (p_out p, off + p_mseq p)
   else match terr with
@@ -238,42 +240,18 @@ Fixpoint output_text (fs : list frame) : str :=
   match fs with [] => [] | FDelta _ d :: r => d ++ output_text r | _ :: r => output_text r end.
 Definition is_prov (f : frame) : bool := match f with FProv _ _ _ _ _ _ _ => true | _ => false end.
 
-(* ---------- correspondence ---------- *)
-Definition enc_str (s : str) : list N := nlen s :: s.
-Definition enc_ostr (o : option str) : list N := match o with None => [0] | Some s => 1 :: enc_str s end.
-Definition enc_optn (o : option N) : list N := match o with None => [0] | Some x => [1; x] end.
-Definition enc_pev (e : pev) : list N :=
-  pe_kind e :: enc_ostr (pe_event e) ++ enc_str (pe_raw e) ++ [pe_data e; pe_err e; pe_rerr e] ++ enc_ostr (pe_delta e).
-Definition enc_frame (f : frame) : list N :=
+(* ---------- u64 arithmetic of the seq numbers ---------- *)
+(* EventFrameMapper::emit `self.seq += 1`, push_sse_str / finish `frame.seq += self.seq_offset` and
+   `*self.seq += frame_count` are u64 additions: a release build wraps modulo 2^64, a build with overflow
+   checks (the harness build) panics.  All three stay below 2^64 iff seq_offset + number of frames does
+   (the mapper-local seq starts at 0 and never exceeds the number of frames). *)
+Definition TWO64 : N := 18446744073709551616.
+Definition wrap_frame (f : frame) : frame :=
   match f with
-  | FProv s st ev raw data err rerr => 0 :: s :: st :: enc_ostr ev ++ enc_ostr raw ++ enc_optn data ++ [err; rerr]
-  | FDelta s d => 1 :: s :: enc_str d
+  | FProv s st ev raw d e r => FProv (s mod TWO64) st ev raw d e r
+  | FDelta s d => FDelta (s mod TWO64) d
   end.
-
-(* classify from a finite table computed by the harness (independently of the chunked run) *)
-Definition ostr_eqb (a b : option str) : bool := option_eqb lN_eqb a b.
-Fixpoint table_classify (t : list (option str * str * cls)) (ev : option str) (raw : str) : cls :=
-  match t with
-  | [] => CInvalid 0
-  | (e, r, c) :: t' => if ostr_eqb e ev && lN_eqb r raw then c else table_classify t' ev raw
-  end.
-
-Inductive case :=
-| CUtf8 (bs : list N) (expect : list N)                                   (* std::str::from_utf8 *)
-| CDec (t : list (option str * str * cls)) (chunks : list str) (expect : list N)   (* SseDecoder + mapper *)
-| CPipe (fixed : bool) (t : list (option str * str * cls)) (off : N) (chunks : list (list N))
-        (terr : option N) (expect : list N).                              (* OpenResponsesSsePipe *)
-
-Definition model_obs (c : case) : list N :=
-  match c with
-  | CUtf8 bs _ => enc_ures (from_utf8 bs)
-  | CDec t chunks _ =>
-    let evs := run_dec (table_classify t) chunks in
-    nlen evs :: concat (map enc_pev evs) ++ concat (map enc_frame (frames_from 0 evs))
-  | CPipe fx t off chunks terr _ =>
-    let '(fs, sq) := run_pipe (table_classify t) (if fx then FIXED else UNFIXED) off chunks terr in
-    sq :: nlen fs :: concat (map enc_frame fs)
-  end.
-Definition case_expect (c : case) : list N :=
-  match c with CUtf8 _ e => e | CDec _ _ e => e | CPipe _ _ _ _ _ e => e end.
-Definition check_case (c : case) : bool := lN_eqb (model_obs c) (case_expect c).
+(* what a release build produces: frames and final *seq *)
+Definition wrap_run (r : list frame * N) : list frame * N := (map wrap_frame (fst r), snd r mod TWO64).
+(* a build with overflow checks panics iff the final *seq would not fit *)
+Definition run_overflows (r : list frame * N) : bool := TWO64 <=? snd r.
